@@ -1511,6 +1511,43 @@ def replay(path):
         return 1
     soup, applied = build(c["recipe"])
     print("document :", repr(soup.decode())[:400])
+    if "receiver" in c and "rawcall" in c:
+        e = E()
+        recv = soup
+        if c["receiver"] != "r":
+            for i in c["receiver"].split("."):
+                recv = recv.contents[int(i)]
+        call, k, en = c["rawcall"]
+        k = True if k == "True" else False if k == "False" else k
+        spec = c["formatter"]
+        farg = make_formatter_arg(spec)
+        fmt = farg if isinstance(farg, e["Formatter"]) else recv.formatter_for_name(farg)
+        real = do_raw_call(recv, call, k, en, farg)
+        eff = "utf-8" if en == "D" else en
+        is_soup = isinstance(recv, e["BeautifulSoup"])
+        lk = (0 if k else None) if (is_soup and isinstance(k, bool)) else k
+        level = 0 if call == "p" else (None if call == "rc0" else lk)
+        if isinstance(level, bool):
+            level = 0
+        print("receiver :", repr(str(recv))[:200])
+        print("formatter:", spec, " call:", call, " level:", k, " encoding:", en)
+        print("observed :", repr(real))
+        if v.get("expected") is not None:
+            print("expected :", repr(v["expected"]))
+        if v.get("model_reply") is not None:
+            print("model    :", repr(v["model_reply"]))
+        bad = False
+        if level is not None:
+            decl = prop_xml_decl(eff) if (is_soup and recv.is_xml) else ""
+            body, flags = demanded_text(recv, Pieces(soup, fmt, eff), fmt, fmt.indent, int(level), call in ("c", "ec", "rc1", "rc0"))
+            if not flags.get("hidden_pre"):
+                want = decl + body
+                if isinstance(real, bytes):
+                    want = want.encode(eff, "xmlcharrefreplace")
+                print("demanded :", repr(want))
+                bad = real != want
+        print("property " + ("VIOLATED" if bad else "holds on this input (for the formatter's own unit)"))
+        return 1 if bad else 0
     if "receiver" not in c or "call" not in c or c["call"] == ["events"]:
         print(json.dumps({k: c[k] for k in c if k != "recipe"}, indent=1)[:2000])
         return 1
